@@ -7,6 +7,7 @@ generator weighted towards classes spread over roots / fake devices, repeated an
 with the replica rule re-implemented from the property text, compared with the report as sets of sets.
 """
 from . import grp_common as G
+from . import mounts_rt, midrun_rt
 
 
 def run(ctx):
@@ -35,5 +36,10 @@ def run(ctx):
         x = G.gen_spec(ctx.rng.fork(), "C03", small=True)
         tw.append(G.add_boundary_twins(ctx.rng.fork(), x))
     G.process_results(ctx, eng, eng.run_specs(tw))
-    trf = [G.gen_in_transform_spec(ctx.rng.fork(), failing=True) for _ in range(ctx.pick(8, 100))]
+    trf = [G.gen_in_transform_spec(ctx.rng.fork(), failing=(i % 2 == 1)) for i in range(ctx.pick(16, 200))]
     G.process_results(ctx, eng, eng.run_specs(trf))
+    # several file systems whose files share inode numbers (fresh tmpfs instances in a private mount namespace):
+    # the qualifying content classes must be reported completely
+    mounts_rt.colliding_inodes_check(ctx, ctx.pick(6, 60), completeness=True)
+    # the cache dimension at the CLI level: files that join / leave a content class by an in-place rewrite between cached runs
+    midrun_rt.restore_older_check(ctx, ctx.pick(24, 300))
